@@ -5,6 +5,7 @@ import (
 	"go/ast"
 	"go/constant"
 	"go/token"
+	"golang.org/x/tools/go/packages"
 	"sort"
 	"strings"
 )
@@ -129,6 +130,8 @@ func ruleLexLTSet(c *Ctx, r *R) {
 				r.ok(key, site, "asks about all four line terminators")
 			case !viaSet && pairOnly && seen["CR"] && len(seen) <= 2 && (len(seen) == 1 || seen["LF"]):
 				r.ok(key, site, "the CR LF pairing idiom (the caller has already seen a line terminator)")
+			case !viaSet && len(seen) == 1 && seen["LF"] && calledOnlyUnderCR(c, p, fd):
+				r.ok(key, site, "the LF half of the CR LF pairing idiom: every call of this helper is made under a test for CR")
 			default:
 				r.bad(key, site, fmt.Sprintf("%s tests a character for %s only: ES5 7.3 has four line terminators (LF, CR, U+2028, U+2029), and the one left out does not end the comment / line for this function - `a // c<CR>b = 2` loses the statement after a lone CR, `throw /*<U+2028>*/ x` is accepted", declName(fd), strings.Join(names, ", ")))
 			}
@@ -169,4 +172,58 @@ func underCRTest(c *Ctx, n ast.Node, info interface{}) bool {
 		}
 	}
 	return false
+}
+
+// calledOnlyUnderCR: fd is called somewhere in the package, and every call lies in the body of an if that compares with
+// CR or in a `case '\r'` clause.
+func calledOnlyUnderCR(c *Ctx, p *packages.Package, fd *ast.FuncDecl) bool {
+	obj := p.TypesInfo.Defs[fd.Name]
+	if obj == nil {
+		return false
+	}
+	n, all := 0, true
+	for _, f := range p.Syntax {
+		ast.Inspect(f, func(nd ast.Node) bool {
+			call, ok := nd.(*ast.CallExpr)
+			if !ok {
+				return true
+			}
+			var id *ast.Ident
+			switch fx := unparen(call.Fun).(type) {
+			case *ast.Ident:
+				id = fx
+			case *ast.SelectorExpr:
+				id = fx.Sel
+			}
+			if id == nil || p.TypesInfo.Uses[id] != obj {
+				return true
+			}
+			n++
+			if underCRTest(c, call, nil) {
+				return true
+			}
+			// a `case '\r':` clause
+			var child ast.Node = call
+			inCase := false
+			for par := c.ParentOf(call); par != nil; child, par = par, c.ParentOf(par) {
+				if cc, ok := par.(*ast.CaseClause); ok {
+					for _, e := range cc.List {
+						if bl, ok := unparen(e).(*ast.BasicLit); ok && bl.Kind == token.CHAR && (bl.Value == `'\r'` || bl.Value == `'\u000d'` || bl.Value == `'\x0d'`) {
+							inCase = true
+						}
+					}
+					break
+				}
+				if _, ok := par.(*ast.FuncDecl); ok {
+					break
+				}
+				_ = child
+			}
+			if !inCase {
+				all = false
+			}
+			return true
+		})
+	}
+	return n > 0 && all
 }
